@@ -13,14 +13,38 @@ from .. import tlc, mbt, trace
 from ..common import Verdict, use_repo, REPO, SEED
 from ..drivers import emitparse as ep
 
-FULL = [97, 32, 10, 133, 8232, 13, 9, 45, 63, 58, 44, 91, 35, 38, 33, 124, 39, 34, 37, 46, 92, 233, 160, 65279, 7, 127,
-        128512, 65534]
+# Scalars!Indicators: every character that analyze_scalar / the writers or the scanner (fetch_more_tokens' dispatch, check_plain,
+# check_key, check_value, scan_plain, the document-marker and directive checks, the flow scalar scanner) treat specially at some
+# position.  MC_Scalars adds them to the alphabet itself (IndMax > 0), each one a symbol of its own; this copy serves the seeded
+# generator of part C and is compared with the set TLC enumerated (machinery failure if they differ).
+INDICATORS = sorted(ord(c) for c in '#,[]{}&*!|>\'"%@`' + '?:-' + '.' + '\\')
+# the other character classes of Scalars.tla: word, space, the five breaks, CR, TAB, NUL, BMP / NBSP / BOM / astral unicode,
+# C0 controls with and without a named escape, the two non-characters
+FBASE = [97, 32, 10, 133, 8232, 8233, 13, 9, 0, 233, 160, 65279, 7, 127, 128512, 65534]
+FULL = FBASE + INDICATORS
+# representatives of the classes that are NOT single characters (first = the code point the model computes with); no character
+# of INDICATORS is in any class
+CLASSES = {97: 'aZ7_b/+=~^$)(;<', 233: '\xe9\xfc\u4e2d\xff\u0416\ud7ff\ufffd', 128512: '\U0001f600\U00010000\U0010fffe',
+           7: '\x07\x08\x0b\x0c\x1b', 127: '\x7f\x01\x1f\x80\x84\x86\x9f\x0e', 65534: '\ufffe\uffff'}
+assert not set(INDICATORS) & {ord(c) for v in CLASSES.values() for c in v}
+
+
+def concretise(cp, rnd):
+    """replace every abstract character by a seeded representative of its class"""
+    return ''.join(rnd.choice(CLASSES[c]) if c in CLASSES else chr(c) for c in cp)
+
+
 ALLK = ['root0', 'root3', 'item', 'mval', 'bkey', 'ckey', 'fitem', 'fnext', 'fkey', 'fval']
 SBASE = dict(Fix=[], Alpha=[97, 32, 10], MaxLen=6, Kinds=['item'], Bests=[2], Widths=[5], Depths=[1], Unis=[False],
-             LBs=['n'], Reqs=['none', 'single', 'double', 'literal', 'folded'])
+             LBs=['n'], Reqs=['none', 'single', 'double', 'literal', 'folded'], IndMax=0)
 SCONF = {
     'wsl':  dict(SBASE, MaxLen=5, Kinds=['item', 'root0', 'bkey', 'fitem'], Depths=[1, 3]),
-    'full': dict(SBASE, Alpha=FULL, MaxLen=2, Kinds=['item', 'fitem'], Widths=[80], Unis=[True, False]),
+    # all pairs over the full repertoire: FBASE plus every indicator as its own symbol (IndMax = MaxLen: no limit on them)
+    'full': dict(SBASE, Alpha=FBASE, IndMax=2, MaxLen=2, Kinds=['item', 'fitem'], Widths=[80], Unis=[True, False]),
+    # one indicator character in the first, an inner or the last position, with a word or a space on either side, under the
+    # implicit and the non-implicit plain request: block item / value / simple key, flow item / simple key / value, root
+    'ind':  dict(SBASE, Alpha=[97, 32], IndMax=1, MaxLen=4, Kinds=['item', 'mval', 'bkey', 'fitem', 'fkey', 'fval', 'root0'],
+                 Widths=[80], Reqs=['none']),
     'esc':  dict(SBASE, Alpha=[97, 32, 233, 7], MaxLen=5, Depths=[3]),
     'b4':   dict(SBASE, MaxLen=5, Bests=[4], Widths=[9], Depths=[1, 3]),
     'lb':   dict(SBASE, MaxLen=4, Kinds=['item', 'root0'], LBs=['r', 'rn']),
@@ -29,8 +53,12 @@ SCONF = {
     # thorough
     'wsl+':  dict(SBASE, MaxLen=7, Kinds=ALLK, Depths=[1, 3]),
     'w8+':   dict(SBASE, MaxLen=8, Kinds=['item', 'mval', 'fitem'], Widths=[8], Depths=[1, 2]),
-    'full+': dict(SBASE, Alpha=FULL, MaxLen=3, Kinds=['item'], Widths=[80], Unis=[True, False]),
-    'ctx+':  dict(SBASE, Alpha=FULL, MaxLen=2, Kinds=ALLK, Widths=[80, 5], Unis=[True, False]),
+    'full+': dict(SBASE, Alpha=FBASE, IndMax=1, MaxLen=3, Kinds=['item'], Widths=[80], Unis=[True, False]),
+    'ctx+':  dict(SBASE, Alpha=FBASE, IndMax=2, MaxLen=2, Kinds=ALLK, Widths=[80, 5], Unis=[True, False]),
+    'ind+':  dict(SBASE, Alpha=[97, 32], IndMax=1, MaxLen=5, Kinds=ALLK, Widths=[80], Reqs=['none', 'single']),
+    'ind2+': dict(SBASE, Alpha=[97, 32], IndMax=2, MaxLen=4, Kinds=['item', 'mval', 'bkey', 'fitem', 'fnext', 'fkey', 'fval'], Widths=[80],
+                  Reqs=['none']),
+    'ind3+': dict(SBASE, Alpha=[97, 32], IndMax=3, MaxLen=3, Kinds=['item', 'fitem'], Widths=[80], Reqs=['none']),
     'esc+':  dict(SBASE, Alpha=[97, 32, 10, 233, 7, 34], MaxLen=5, Depths=[1, 3], Kinds=['item', 'fitem']),
     'brk+':  dict(SBASE, Alpha=[97, 32, 10, 133, 8232], MaxLen=5, Kinds=['item', 'root0', 'mval', 'fitem'], Unis=[True]),
     'b4+':   dict(SBASE, MaxLen=6, Bests=[4, 9], Widths=[9, 19], Depths=[1, 3], Kinds=['item', 'mval', 'fitem']),
@@ -38,7 +66,8 @@ SCONF = {
     'marks+': dict(SBASE, Alpha=[97, 32, 10, 900001, 900002], MaxLen=7, Kinds=['root0', 'root3', 'item', 'mval', 'bkey', 'fitem', 'fkey'],
                    Depths=[1, 3]),
 }
-STIERS = {'quick': ['wsl', 'full', 'esc', 'b4', 'lb', 'marks'], 'thorough': ['wsl+', 'w8+', 'full+', 'ctx+', 'esc+', 'brk+', 'b4+', 'lb+', 'marks+']}
+STIERS = {'quick': ['wsl', 'full', 'ind', 'esc', 'b4', 'lb', 'marks'],
+          'thorough': ['wsl+', 'w8+', 'full+', 'ctx+', 'ind+', 'ind2+', 'ind3+', 'esc+', 'brk+', 'b4+', 'lb+', 'marks+']}
 PAIRS = [('python', 'Dumper', 'python', 'Loader'), ('python', 'Dumper', 'libyaml', 'CLoader'),
          ('libyaml', 'CDumper', 'libyaml', 'CLoader'), ('libyaml', 'CDumper', 'python', 'Loader')]
 CMP = ('k', 'a', 't', 'v', 'ver', 'tags')
@@ -107,14 +136,42 @@ def calibrate(yaml):
 
 
 # ------------------------------------------------------------------ part A: replay of MC_Scalars states
+def emit_parse_cached(yaml, evs, D, L, opts, cache):
+    """ep.emit_parse with the parse half looked up by (parser, text): the requests of one state mostly produce the same few
+    texts, and parsing is a function of the text"""
+    res = {'outcome': 'ok', 'text': None, 'eout': [], 'err': ''}
+    try:
+        res['text'] = yaml.emit(evs, Dumper=getattr(yaml, D), **opts)
+    except yaml.emitter.EmitterError as e:
+        res['outcome'], res['err'] = 'EmitterError', str(e)[:200]
+        return res
+    except Exception as e:
+        res['outcome'], res['err'] = 'exception', '%s: %s' % (type(e).__name__, str(e)[:200])
+        return res
+    key = (L, res['text'])
+    if key not in cache:
+        p = {'outcome': 'ok', 'eout': [], 'err': ''}
+        try:
+            back = list(yaml.parse(res['text'], Loader=getattr(yaml, L)))
+            p['eout'] = [ep.project(e) for e in back]
+            p['styles'] = [ep.STYLE_NAME.get(e.style, '?') for e in back if type(e).__name__ == 'ScalarEvent']
+        except Exception as e:
+            p['outcome'], p['err'] = 'ParseError', '%s: %s' % (type(e).__name__, str(e)[:200])
+        cache[key] = p
+    res.update(cache[key])
+    return res
+
+
 def scal_work(states, extra):
     yaml = use_repo()
     rnd = random.Random(extra['seed'])
     out = {'n': 0, 'pairs': 0, 'traces': [], 'meta': [], 'same': 0, 'drift': [], 'ndrift': 0, 'lbad': {}, 'styles': {},
-           'folds': 0, 'samples': [], 'cxs': set()}
+           'folds': 0, 'samples': [], 'cxs': set(), 'syms': set()}
     for st in states:
         out['n'] += 1
         text, cx, res = st['text'], st['cx'], st['res']
+        out['syms'].update(text)
+        cache = {}
         if not isinstance(res, dict):
             res = {}
         opts = ep.ctx_opts(cx)
@@ -128,17 +185,21 @@ def scal_work(states, extra):
             for d in r['diag'][1] if isinstance(r['diag'], tuple) else []:
                 out['lbad'][d] = out['lbad'].get(d, 0) + 1
             variants = [ep.text_of(text)]
-            alt = ep.concretise(text, rnd)
+            alt = concretise(text, rnd)
             if alt != variants[0]:
                 variants.append(alt)
-            for vi, value in enumerate(variants):
+            # every (style request, implicit[0]) the model maps to this style; the witness first
+            reqs = [(r['req'], r['impl'])] + sorted((q, i) for q, i in setlist(r.get('reqs')) if (q, i) != (r['req'], r['impl']))
+            for (vi, value), (qi, (req, impl)) in ((a, b) for a in enumerate(variants) for b in enumerate(reqs)):
                 for em, D, pa, L in PAIRS:
                     if vi and (em, pa) not in (('python', 'python'), ('libyaml', 'libyaml'))[:extra['altpairs']]:
                         continue
                     if not vi and extra['altpairs'] == 1 and (em, pa) == ('libyaml', 'python'):
                         continue
-                    evs, idx = ep.ctx_events(yaml, cx, value, r['req'], r['impl'])
-                    o = ep.emit_parse(yaml, evs, getattr(yaml, D), getattr(yaml, L), opts)
+                    if qi and (vi or (em, pa) not in (('python', 'python'), ('libyaml', 'libyaml'))):
+                        continue
+                    evs, idx = ep.ctx_events(yaml, cx, value, req, impl)
+                    o = emit_parse_cached(yaml, evs, D, L, opts, cache)
                     ein = [ep.project(e) for e in evs]
                     out['pairs'] += 1
                     same = o['outcome'] == 'ok' and identical(ein, o['eout'])
@@ -148,7 +209,7 @@ def scal_work(states, extra):
                         out['traces'].append({'wf': 1, 'outcome': o['outcome'], 'ein': ein, 'eout': o['eout']})
                         sty = o.get('styles', [])
                         out['meta'].append({'emitter': em, 'parser': pa, 'ctx': cx['kind'], 'value': value, 'opts': opts,
-                                            'req': r['req'], 'text': o['text'], 'err': o['err'],
+                                            'req': req, 'impl0': impl, 'text': o['text'], 'err': o['err'],
                                             'style': sty[idx] if idx < len(sty) else '-', 'model_style': sname,
                                             'model_diag': sorted(r['diag'][1]) if isinstance(r['diag'], tuple) else []})
                     # L comparison (drift only): the Python emitter, canonical representative
@@ -161,7 +222,7 @@ def scal_work(states, extra):
                                 or lok != real_ok:
                             out['ndrift'] += 1
                             if len(out['drift']) < 3:
-                                out['drift'].append({'value': value, 'ctx': cx, 'style': sname, 'model_text': exp,
+                                out['drift'].append({'value': value, 'ctx': cx, 'style': sname, 'req': [req, impl], 'model_text': exp,
                                                      'real_text': o['text'], 'model_ok': lok, 'real_same': real_ok})
             if len(out['samples']) < 1 and len(text) >= 2:
                 out['samples'].append({'value': ep.text_of(text), 'ctx': cx['kind'], 'style': sname, 'text': exp})
@@ -195,6 +256,11 @@ def run_scalars(v, tier, results, acc, pending):
         acc['pairs'] += sum(o['pairs'] for o in outs)
         acc['same'] += sum(o['same'] for o in outs)
         acc['folds'] += sum(o['folds'] for o in outs)
+        syms = set().union(*[o['syms'] for o in outs])
+        if SCONF[name]['IndMax'] and syms != set(SCONF[name]['Alpha']) | set(INDICATORS):
+            raise SystemExit('machinery failure: the alphabet TLC enumerated in %s (Alpha + Scalars!Indicators) is %s, the harness '
+                             'copy of the indicator set is %s' % (name, sorted(syms), INDICATORS))
+        acc['symbols'] = max(acc.get('symbols', 0), len(syms))
         for o in outs:
             acc.setdefault('scal_cxs', set()).update(o['cxs'])
             acc['samples'] += o['samples'][:1]
@@ -436,7 +502,7 @@ def corpus_work(args):
             evs = []
             for e in events:
                 if isinstance(e, E.ScalarEvent):
-                    val = ''.join(rnd.choice(WORDS) if rnd.random() < 0.08 else ep.concretise([rnd.choice(REPERTOIRE)], rnd)
+                    val = ''.join(rnd.choice(WORDS) if rnd.random() < 0.08 else concretise([rnd.choice(REPERTOIRE)], rnd)
                                   for _ in range(rnd.randrange(0, 14)))
                     e = E.ScalarEvent(e.anchor, e.tag, e.implicit, val, style=rnd.choice([None, None, "'", '"', '|', '>']))
                 evs.append(e)
@@ -531,7 +597,7 @@ def main(tier, replay=None):
              'pairs_judged_by_tlc': acc['judged'], 'pairs_identical_on_all_compared_fields': acc['same'],
              'scalar_styles_replayed': acc['styles'], 'model_diagnosed_defect_sites': acc['lbad'],
              'event_streams_replayed': acc['streams'], 'model_outcomes': acc['outcomes'],
-             'emitter_methods_fired': acc.get('methods_fired'), 'emitter_scalar_contexts': acc.get('emitter_scalar_contexts'),
+             'scalar_alphabet_symbols': acc.get('symbols'), 'emitter_methods_fired': acc.get('methods_fired'), 'emitter_scalar_contexts': acc.get('emitter_scalar_contexts'),
              'emitter_scalar_contexts_also_in_scalars_family': len(acc.get('emit_cxs', set()) & acc.get('scal_cxs', set())),
              'emitter_scalar_contexts_distinct': len(acc.get('emit_cxs', set())),
              'corpus_files': acc.get('corpus_files'), 'corpus_streams_re_emitted': acc.get('corpus_streams'),
